@@ -826,7 +826,7 @@ pub fn property() -> Property {
                 name: "histories",
                 plan: |t| match t {
                     Tier::Quick => Plan::Random { cases: 120_000, max_len: 600 },
-                    Tier::Thorough => Plan::Random { cases: 600_000, max_len: 800 },
+                    Tier::Thorough => Plan::Random { cases: 3_000_000, max_len: 800 },
                 },
                 case: case_q,
                 min_classes: &[("kind-confused-step", 3000), ("use-after-release-step", 1000), ("recursive-release", 1000), ("recursive-release-2-levels", 300), ("recursive-release-3-levels", 30)],
@@ -835,7 +835,7 @@ pub fn property() -> Property {
                 name: "long-histories",
                 plan: |t| match t {
                     Tier::Quick => Plan::Skip,
-                    Tier::Thorough => Plan::Random { cases: 60_000, max_len: 2200 },
+                    Tier::Thorough => Plan::Random { cases: 300_000, max_len: 2200 },
                 },
                 case: case_t,
                 min_classes: &[],
